@@ -802,6 +802,10 @@ fn c05(ctx: &mut Ctx) {
         let mut rng = rng_for(ctx.seed, "C05/default/strict", i as u64);
         let (w, qs, evals, proofs, sp0) = honest_batch(&mut rng, i, 2);
         let k = proofs.len();
+        if k < 2 {
+            fail(ctx, &id, "honest-batch-open-refused", "batch_open did not return one proof per point label");
+            continue;
+        }
         // all true
         let r = batch_case(ctx, &id, "all-true", &w.comms, &qs, &evals, &proofs, &[], &sp0);
         if !r.out.accepted() {
@@ -1296,6 +1300,10 @@ fn c02(ctx: &mut Ctx) {
         let (w, qs, evals, proofs, sp0) = honest_batch(&mut rng, i, 1);
         let qset = set_of(&qs);
         let groups = ref_groups(&qset);
+        if proofs.len() != groups.len() {
+            fail(ctx, &id, "honest-batch-open-refused", "batch_open did not return one proof per point label");
+            continue;
+        }
         // value + delta at every (label, point): `check` of that group must be handed the changed value
         let keys: Vec<(String, Fr)> = evals.keys().cloned().collect();
         for (j, key) in keys.iter().enumerate() {
@@ -1382,6 +1390,10 @@ fn c10(ctx: &mut Ctx) {
         if i % 2 == 0 {
             let (w, qs, evals, proofs, sp0) = honest_batch(&mut rng, i / 2, 2);
             let k = proofs.len();
+            if k < 2 {
+                fail(ctx, &id, "honest-batch-open-refused", "batch_open did not return one proof per point label");
+                continue;
+            }
             let mut comms = w.comms.clone();
             let mut q = qs.clone();
             let mut ev = evals.clone();
@@ -1484,12 +1496,12 @@ fn c10(ctx: &mut Ctx) {
                     comms.remove(j);
                     "commitment-dropped"
                 }
-                5 => {
+                5 if k > 0 => {
                     let j = range(&mut rng, 0, k - 1);
                     pr[j].chal += Fr::one();
                     "proof-element"
                 }
-                6 => {
+                6 if k > 0 => {
                     script = vec![6; k];
                     script[range(&mut rng, 0, k - 1)] = 0;
                     "group-verdict-false"
